@@ -517,6 +517,13 @@ def phase1 : Nat → Ph1 → Except Fail Ph1
 
 def decodeTok (t : Tok) : Str := [Char.ofNat (97 + t)]
 
+/-- the length the stop handling of processBatch cuts the slot's record to (`tokenLen`): one more than is
+    cached (the last token was not submitted to Decode), minus the pieces TruncateStop removed, minus one if a
+    piece was cut in the middle (or, "as defense-in-depth", if no piece was removed at all) -/
+def stopTokenLen (recLen origLen newLen : Nat) (trunc : Bool) : Int :=
+  let tokenLen : Int := (recLen : Int) + 1 - ((origLen : Int) - newLen)
+  if trunc || origLen = newLen then tokenLen - 1 else tokenLen
+
 /-- `seq.cache.Inputs = append(seq.cache.Inputs, seq.pendingInputs...)` (only when there is something pending) -/
 def appendPending (sv : Server) (sq : Seq) : Server :=
   if sq.pending.isEmpty then sv else
@@ -543,8 +550,7 @@ def phase3Seq (logits : List Tok) (i : Nat) (sv : Server) (o : StepObs) (sq : Se
         let tr := truncateStop sq.pendingResp stop
         let newLen := tr.1.length
         let sl := getSlot sv.cache.slots sq.slot
-        let tokenLen : Int := (sl.inputs.length : Int) + 1 - ((origLen : Int) - newLen)
-        let tokenLen := if tr.2 || origLen = newLen then tokenLen - 1 else tokenLen
+        let tokenLen := stopTokenLen sl.inputs.length origLen newLen tr.2
         let sv := { sv with cache := { sv.cache with slots := setSlot sv.cache.slots sq.slot fun s => { s with inputs := s.inputs.take tokenLen.toNat } } }
         removeSequence sv o i { sq with pendingResp := tr.1 } 0
       | none =>
